@@ -21,8 +21,8 @@ Prose ↔ statements.
                                           `removal_never_aborts` (with the guard probed as `skipsMissing`) —
                                           `clean_complete_full` fails on the unguarded code:
                                           `clean_complete_counterexample`.
-The housekeeping after the deletion (`runN`, `_cylc-install`, empty parents) is modelled (`tidy`) and
-covered by the correspondence and the judge, not by a theorem.
+The housekeeping after the deletion (`runN`, `_cylc-install`, empty parents) is the only thing that
+touches anything else: `clean_deletes_only` (`TidyPath`) and `tidy_removes_only_empty_dirs`.
 -/
 import CylcModel.PathCleanLemmas
 namespace CylcModel.C38
@@ -153,6 +153,46 @@ example : deleted demoFs2 (cleanMain false demoFs2 20 ["r".toList] [["log".toLis
 /-- the same when a pattern matched through the foreign link is handed in: nothing is deleted -/
 example : deleted demoFs2 (cleanMain false demoFs2 20 ["r".toList] [["log".toList]]
     (some [[["lnk".toList, "c".toList]]])).1 = [] := by decide
+
+/-- **clean_deletes_only.** The whole of `clean` (deletion, then the tidy-up): every entry that
+disappears is inside the workflow (`Inside`), or is one of the tidy-up paths of the tree as it was
+before: the `runN` link next to the run dir, `_cylc-install` next to the run dir, a parent
+directory of the run dir below `cylc-run`, or a parent directory of a symlink-dir target inside its
+`cylc-run/<id>/<dir>` tail. -/
+theorem clean_deletes_only (skip : Bool) (fs0 : Fs) (n : Nat) (runDir idc : P) (sdl : List (P × P))
+    (hsd : getSymlinkDirs fs0 n runDir idc = some sdl) (pats : Option (List (List P))) :
+    ∀ e ∈ fs0, e ∉ (clean skip fs0 n runDir idc pats).1 →
+      Inside fs0 runDir (sdl.map (·.1)) e.1 ∨ TidyPath fs0 runDir idc sdl e.1 :=
+  (clean_shr skip symlink_dirs_ancestor_closed hsd pats).2
+
+/-- … and the parent directories go only when empty: whatever `remove_empty_parents` removes leaves
+nothing strictly below it behind. -/
+theorem tidy_removes_only_empty_dirs (n : Nat) (path : P) (rem i : Nat) (fs : Fs) :
+    ∀ e ∈ fs, e ∉ removeEmptyParents n path rem i fs →
+      ∀ e' ∈ removeEmptyParents n path rem i fs, ¬ (e.1 <+: e'.1 ∧ e'.1 ≠ e.1) :=
+  removeEmptyParents_only_empty n path rem i fs
+
+/-- workflow `w/run1` below cylc-run dir `c`, with `runN`, `_cylc-install` and a stray file of
+another workflow: a wholesale clean takes the run, then `runN`, `_cylc-install` and the now empty
+`c/w` — and leaves `c`, `c/v`, `o` alone -/
+def demoFs3 : Fs :=
+  [(["c".toList], .dir), (["c".toList, "v".toList], .file), (["c".toList, "w".toList], .dir),
+   (["c".toList, "w".toList, "run1".toList], .dir),
+   (["c".toList, "w".toList, "run1".toList, "f".toList], .file),
+   (["c".toList, "w".toList, "runN".toList], .link ["c".toList, "w".toList, "run1".toList] true),
+   (["c".toList, "w".toList, "_cylc-install".toList], .dir),
+   (["c".toList, "w".toList, "_cylc-install".toList, "source".toList], .link ["o".toList] false),
+   (["o".toList], .dir)]
+
+example : getSymlinkDirs demoFs3 20 ["c".toList, "w".toList, "run1".toList] ["w".toList, "run1".toList] = some [] := by
+  decide
+
+example : deleted demoFs3
+    (clean false demoFs3 20 ["c".toList, "w".toList, "run1".toList] ["w".toList, "run1".toList] none).1 =
+    [["c".toList, "w".toList], ["c".toList, "w".toList, "run1".toList],
+     ["c".toList, "w".toList, "run1".toList, "f".toList], ["c".toList, "w".toList, "runN".toList],
+     ["c".toList, "w".toList, "_cylc-install".toList],
+     ["c".toList, "w".toList, "_cylc-install".toList, "source".toList]] := by decide
 
 /-! ### completeness -/
 
